@@ -70,6 +70,11 @@ def gmat(rng, quick):
         yield f"rank1-spread[n={n}]", np.outer(v, v)
     v = np.array([np.sqrt(0.4), np.sqrt(0.6)])
     yield "rank1-0.4/0.6", np.outer(v, v)
+    # one dense connected block beyond the 1000-row switch, with eigenvalues at the edge of the allowed gap (1 - 1.1e-3):
+    # a tolerance that grows with the matrix size must not accept them
+    n = 1100
+    lam = np.concatenate([np.ones(60), np.full(60, 1 - 1.1e-3), rng.uniform(0, 0.95, size=n - 120)])
+    yield f"dense-large[n={n},gap=1.1e-3]", with_spectrum(rng, lam)
 
 
 def unit_projector(M):
